@@ -4,6 +4,7 @@ package sqlite
 
 import (
 	"bytes"
+	"strings"
 	"context"
 	"database/sql"
 	"errors"
@@ -297,13 +298,48 @@ func VerifModel_remove(ctx context.Context, db any, table string, where map[stri
 	return nil
 }
 
-// InvalidateToken issues its DELETE directly on *sql.DB; the model keeps its
-// token check (the real sessionID) and performs the delete with cascade.
-func VerifModel__DB__InvalidateToken(db *DB, ctx context.Context) error {
-	sessID, ok := db.sessionID(ctx)
-	if !ok {
-		return fdo.ErrNotFound
+// Statements issued directly on *sql.DB (InvalidateToken's DELETE) are executed by a
+// small interpreter for the form  DELETE FROM <table> WHERE <column> <op> ?  with
+// op in {=, <, <=, >, >=}; anything else is reported as unsupported (inconclusive).
+type vResult int64
+
+func (r vResult) LastInsertId() (int64, error) { return 0, nil }
+func (r vResult) RowsAffected() (int64, error) { return int64(r), nil }
+
+func VerifModel_SQL_ExecContext(db *sql.DB, ctx context.Context, query string, args ...any) (sql.Result, error) {
+	f := strings.Fields(query)
+	if len(f) == 7 && strings.EqualFold(f[0], "DELETE") && strings.EqualFold(f[1], "FROM") && strings.EqualFold(f[3], "WHERE") && f[6] == "?" && len(args) == 1 {
+		table, col, op := f[2], strings.Trim(f[4], "`"), f[5]
+		var kept, gone []vRow
+		for _, r := range vDB.tables[table] {
+			match := false
+			switch op {
+			case "=":
+				match = vEq(r[col], args[0])
+			case "<", "<=", ">", ">=":
+				if r[col] != nil {
+					x, y := vInt(r[col]), vInt(args[0])
+					match = (op == "<" && x < y) || (op == "<=" && x <= y) || (op == ">" && x > y) || (op == ">=" && x >= y)
+				}
+			default:
+				verif.Fail("model: unsupported SQL comparison operator")
+			}
+			if match {
+				gone = append(gone, r)
+			} else {
+				kept = append(kept, r)
+			}
+		}
+		vDB.tables[table] = kept
+		if table == "sessions" {
+			for _, g := range gone {
+				for _, t := range vCascade {
+					vDelete(t, map[string]any{"session": g["id"]})
+				}
+			}
+		}
+		return vResult(len(gone)), nil
 	}
-	vDelete("sessions", map[string]any{"id": sessID})
-	return nil
+	verif.Fail("model: unsupported direct SQL statement")
+	return nil, errors.New("unsupported")
 }
